@@ -1696,6 +1696,10 @@ var opForward = []struct{ fn, callee string }{
 	{fRep + "WriteAt", "invoke:WriteAt"}, {fRep + "ReadAt", "invoke:ReadAt"}, {fRep + "Sync", "invoke:Sync"}, {fRep + "Unmap", "invoke:Unmap"},
 	// the lowest layer: the chain's head file
 	{"(*replica.diffDisk).Sync", "syscall.Fsync"}, {"(*replica.diffDisk).fullWriteAt", "invoke:WriteAt"}, {"(*replica.diffDisk).readModifyWrite", "(*replica.diffDisk).fullWriteAt"},
+	// management operations that must not be acknowledged without having been carried out
+	{fSrv + "Snapshot", fRep + "Snapshot"}, {fRep + "Snapshot", fRep + "createDisk"}, {fRep + "createDisk", fRep + "createNewHead"},
+	{fSrv + "Revert", fRep + "Revert"}, {fRep + "Revert", fRep + "revertDisk"},
+	{fRep + "SetRevisionCounter", fRep + "writeRevisionCounter"}, {fRep + "SetRevisionCounterCloneReplica", fRep + "writeRevisionCounter"},
 	// protocol reads that must not be answered from a cache: the answer changes behind the caller's back
 	{"(*backend/remote.Remote).info", "(*net/http.Client).Do"},
 	// the replica resource the action gate (checkAction) and the controller's polls read: built from the server's current state
@@ -1725,7 +1729,7 @@ var opForwardAtoms = map[string][]string{
 
 func ruleOpForward(rule string) ruleFn {
 	return func(c *Ctx) {
-		c.Doc(rule, "every layer of the data path (Controller, replicator, rpc.Client, replica.Server, Replica, diffDisk: WriteAt / ReadAt / Sync / Unmap / Ping) reports success only on paths on which the operation was handed to the layer below: there is no fast path that acknowledges a flush, a write or a discard without executing it (a 'nothing changed since the last sync' flag is not maintained on the degraded-success paths, and it by-passes the read-only gate and the sticky connection error)")
+		c.Doc(rule, "every layer of the data path (Controller, replicator, rpc.Client, replica.Server, Replica, diffDisk: WriteAt / ReadAt / Sync / Unmap / Ping; replica.Server and Replica: Snapshot / Revert / the revision-counter setters) reports success only on paths on which the operation was handed to the layer below: there is no fast path that acknowledges a flush, a write or a discard without executing it (a 'nothing changed since the last sync' flag is not maintained on the degraded-success paths, and it by-passes the read-only gate and the sticky connection error)")
 		n := 0
 		for _, of := range opForward {
 			fn := c.P.Fn(of.fn)
@@ -1766,7 +1770,7 @@ func ruleOpForward(rule string) ruleFn {
 			}
 			c.Guard(rule, fn, sites, "report success", nil, need)
 		}
-		if n < 20 {
+		if n < 27 {
 			c.Undecided(rule, "vacuity-floor", "", fmt.Sprintf("only %d data-path functions found", n))
 		}
 	}
